@@ -988,7 +988,7 @@ class Standard(Output):
         YY = np.array([loc.lat for loc in data.locations])
         contrib = error_x - error_y
 
-        Ivalid = np.where(np.isnan(contrib) == 0)[0]
+        Ivalid = np.where(np.isfinite(contrib))[0]
         if len(Ivalid) == 0:
             verif.util.error("No valid data")
         contrib = contrib[Ivalid]
